@@ -12,6 +12,7 @@ package main
 import (
 	"fmt"
 	"go/token"
+	"go/types"
 	"os"
 	"sort"
 	"strings"
@@ -80,8 +81,6 @@ var f6Reviewed = map[string]string{
 	"orchestrate/obase.(tagKeyFieldIndex).provideLabelSetTemplatePart|index param:labelValues|index may reach len":                                                                                      "the index is the position of the key field in keyFields found by NewTagBuilder (slices.Index != -1), and labelValues are the key values of one pipeline (len(keyFields) of them, from FieldSetExtractor): relation between a construction-time index and a per-pipeline slice passed through a function value",
 	"orchestrate/obase.(tagKeyFieldIndex).provideLabelSetTemplatePart|index param:labelValues|index may be negative":                                                                                    "see above (slices.Index result after the != -1 test)",
 	"run.(*ReloadableOrchestrator).NewSink|index recv.downstreamSinks|index may reach len":                                                                                                              "clientNumber < base.MaxClientNumber = len(array): the accept loop rejects a connection whose descriptor number is not below MaxClientNumber before starting runConnection (checked by C07.R1g); the value then travels through two interface calls (NewSink), which the precondition search does not follow",
-	"transform/textractspecial.matchValidCharsFromEnd|index param:validChars|index may reach len":                                                                                                       "validChars is nil or has 256 entries (proved); on the call that is not guarded by `validChars != nil` the boundary that would delimit the label is empty, and newStringExtractor rejects a nil table ('*') for exactly that combination (checked by C07.R1n): an implication between two fields of the extractor, outside the linear domain",
-	"transform/textractspecial.matchValidCharsFromStart|index param:validChars|index may reach len":                                                                                                     "see matchValidCharsFromEnd",
 	"transform/textract.(*extractTransform).Transform|index (*regexp.Regexp).FindStringSubmatchIndex(recv.pattern,base.(LogFieldLocator).Get(recv.keyLocator,param:record.Fields))|index may reach len": "regexp contract: a non-nil FindStringSubmatchIndex result has 2*(NumSubexp+1) entries, and subexpFieldLocators is made with len(pattern.SubexpNames()) = NumSubexp+1 entries for the same pattern (NewTransform), so 2*i+1 < len(loc) for every i < len(subexpFieldLocators): a property of a third-party API, not visible in the module's code",
 	"transform/textract.(*extractTransform).Transform|slice base.(LogFieldLocator).Get(recv.keyLocator,param:record.Fields)|high bound may exceed len":                                                  "regexp contract: loc[2i] <= loc[2i+1] are offsets into the matched string when they are not negative (both are tested >= 0 on this path)",
 	"transform/textract.(*extractTransform).Transform|slice base.(LogFieldLocator).Get(recv.keyLocator,param:record.Fields)|low bound may exceed high bound":                                            "see above",
@@ -89,6 +88,70 @@ var f6Reviewed = map[string]string{
 	"util.(BytesPoolBy2n).Get|index recv|index may reach len":                                                                                                                                           "index = 32 - LeadingZeros32(length) is 32 only for length >= 2^31; length is the length of one input line, bounded by the listener buffer (4 x InputLogMaxRecordBytes, a few MiB); the pool has 32 entries (proved)",
 	"util.(BytesPoolBy2n).Put|index recv|index may be negative":                                                                                                                                         "the buffer comes from Get, whose pools allocate 1<<n bytes (n >= 0), so len(*buf) >= 1 and LeadingZeros32 <= 31",
 	"util.(BytesPoolBy2n).Put|index recv|index may reach len":                                                                                                                                           "32 - lz - 1 <= 31 < 32 = len(pools)",
+}
+
+// f6ReviewedRequires: weaker facts that the engine must still prove at a reviewed site (the part of the review's
+// argument that is visible in the code); without them the entry does not apply
+var f6ReviewedRequires = map[string][]string{
+	"input/tcplistener.(*multiLineReader).processBuffer|slice slice(recv.buffer,hi=param:bufferEnd)|low bound may exceed high bound": {"hi>=0", "lo<=hi+1"},
+}
+
+// f6ReviewedSites: call sites at which a precondition of the callee is accepted on review
+// key: caller anchor | canonical call | goal
+var f6ReviewedSites = map[string]string{
+	"transform/textractspecial.extractLabelAtStart|transform/textractspecial.matchValidCharsFromStart(phi(param:text|slice(param:text,lo=len(param:leftBoundary))),param:validChars)|len(arg1)>=256":                "reached only with an empty right boundary (the non-empty case returns above); newStringExtractor rejects a nil table for position == extractFromStart with an empty right boundary (C07.R1n), and a non-nil table has 256 entries (proved)",
+	"transform/textractspecial.extractLabelAtEnd|transform/textractspecial.matchValidCharsFromEnd(phi(param:text|slice(param:text,hi=(len(param:text)-len(param:rightBoundary)))),param:validChars)|len(arg1)>=256": "reached only with an empty left boundary; newStringExtractor rejects a nil table for position == extractFromEnd with an empty left boundary (C07.R1n)",
+}
+
+// requireHolds: one of the weaker facts of a reviewed entry
+func requireHolds(pr *prover, r *f6Result, what string) bool {
+	o := r.O
+	lo, hi := zeroT(), lenT(o.X)
+	if o.Lo != nil {
+		lo = valT(o.Lo)
+	}
+	if o.Hi != nil {
+		hi = valT(o.Hi)
+	}
+	switch what {
+	case "hi>=0":
+		return pr.prove(r.Fn, o.In, zeroT(), hi, 0, nil)
+	case "lo>=0":
+		return pr.prove(r.Fn, o.In, zeroT(), lo, 0, nil)
+	case "lo<=hi+1":
+		return pr.prove(r.Fn, o.In, lo, hi, 1, nil)
+	case "hi<=len":
+		return pr.prove(r.Fn, o.In, hi, lenT(o.X), 0, nil)
+	}
+	broken("unknown requirement %q in the reviewed table", what)
+	return false
+}
+
+// byteTableSites: for `table[b]` with a byte index and a parameter table: the call sites at which
+// len(table) >= 256 is not proved (nil when the shape does not apply)
+func byteTableSites(pr *prover, r *f6Result) (failing []ssa.CallInstruction, applies bool) {
+	if r.O.Kind != "index" {
+		return nil, false
+	}
+	b, ok := r.O.Idx.Type().Underlying().(*types.Basic)
+	if !ok || b.Kind() != types.Uint8 {
+		return nil, false
+	}
+	prm, ok := strip(r.O.X).(*ssa.Parameter)
+	if !ok {
+		return nil, false
+	}
+	sites, ok := pr.knownCallers(r.Fn)
+	if !ok || len(sites) == 0 {
+		return nil, false
+	}
+	for _, site := range sites {
+		lt := pr.substParam(r.Fn, site, lenT(prm))
+		if lt.v == nil || !pr.prove(site.Parent(), site, zeroT(), lt, -256, nil) {
+			failing = append(failing, site)
+		}
+	}
+	return failing, true
 }
 
 func f6Key(fn *ssa.Function, o idxOblig, why string) string {
@@ -150,9 +213,50 @@ func ruleC07R1(c *Ctx) {
 			c.ok("C07.R1", r.Fn, construct, r.O.In.Pos(), why)
 		default:
 			key := f6Key(r.Fn, r.O, r.Why)
+			if failing, applies := byteTableSites(pr, r); applies {
+				// a byte index into a parameter table: decided per call site
+				var unreviewed []string
+				var reasons []string
+				prm := strip(r.O.X).(*ssa.Parameter)
+				idx := 0
+				for i, q := range r.Fn.Params {
+					if q == prm {
+						idx = i
+					}
+				}
+				for _, site := range failing {
+					sk := anchorName(site.Parent()) + "|" + canonOf(site.Value()) + fmt.Sprintf("|len(arg%d)>=256", idx)
+					if reason, ok := f6ReviewedSites[sk]; ok {
+						reasons = append(reasons, "at "+c.P.pos(site.Pos())+": "+reason)
+					} else {
+						unreviewed = append(unreviewed, c.P.pos(site.Pos()))
+						if os.Getenv("SLOGCHECK_F6KEYS") != "" {
+							fmt.Printf("F6SITE %q: \"\",\n", sk)
+						}
+					}
+				}
+				if len(unreviewed) == 0 {
+					nR++
+					c.assumed("C07.R1", r.Fn, construct, r.O.In.Pos(), "the table has 256 entries at every call site, proved except (reviewed) "+strings.Join(reasons, "; "))
+				} else {
+					c.bad("C07.R1", r.Fn, construct, r.O.In.Pos(), "a byte indexes a table that is not shown to have 256 entries when called from "+strings.Join(unreviewed, ", ")+" (a nil table panics on the first byte)")
+				}
+				continue
+			}
 			if reason, ok := f6Reviewed[key]; ok {
-				nR++
-				c.assumed("C07.R1", r.Fn, construct, r.O.In.Pos(), "reviewed: "+reason)
+				missing := ""
+				for _, req := range f6ReviewedRequires[key] {
+					if !requireHolds(pr, r, req) {
+						missing = req
+						break
+					}
+				}
+				if missing == "" {
+					nR++
+					c.assumed("C07.R1", r.Fn, construct, r.O.In.Pos(), "reviewed: "+reason)
+					continue
+				}
+				c.bad("C07.R1", r.Fn, construct, r.O.In.Pos(), fmt.Sprintf("%s; the reviewed argument for this site needs %s, which no longer follows from the code; reached via %s", r.Why, missing, chainTo(reach, r.Fn)))
 				continue
 			}
 			if os.Getenv("SLOGCHECK_F6KEYS") != "" {
